@@ -68,3 +68,70 @@ package dns
 //@   ensures dangl: offset == len(s) - 1 && s[offset] == '\\' ==> ret1 == 0
 //@   ensures unit:  offset < len(s) && !(offset == len(s) - 1 && s[offset] == '\\') ==> ret1 == unext(s, offset) - offset && ret0 == uval(s, offset)
 //@   pure
+
+// ---- packDomainName ------------------------------------------------------------------------------------
+// ns63: namescan without the 255-octet total (the packer enforces only the 63-octet label limit, see the
+// known finding on the missing total-length check); true when every label is 1..63 octets and non-empty.
+//@ spec ns63(s seq, i int, lab int, wasDot bool) bool = i >= len(s) ? true : (s[i] == '\\' ? ns63(s, ddd(s, i+1) ? i+4 : i+2, lab+1, false) : (s[i] == '.' ? (!((i == 0 && len(s) > 1) || wasDot || lab >= 64) && ns63(s, i+1, 0, true)) : ns63(s, i+1, lab+1, false))) decreases len(s) - i
+
+// nswire: wire octets of the labels (1 + octets each) scanned from state (i, lab, w) on, without the final root octet
+//@ spec nswire(s seq, i int, lab int, w int) int = i >= len(s) ? w : (s[i] == '\\' ? nswire(s, ddd(s, i+1) ? i+4 : i+2, lab+1, w) : (s[i] == '.' ? nswire(s, i+1, 0, w+1+lab) : nswire(s, i+1, lab+1, w))) decreases len(s) - i
+//@ lemma nswire_ge(s seq, i int, lab int, w int) induct len(s) - i over i lab w: (0 <= i && 0 <= lab && IsFqdnSpec(s) && i < len(s) && !escd(s, i)) ==> nswire(s, i, lab, w) >= w + 1 + lab [C03]
+
+//@ func (compressionMap).valid [C03 C04]
+//@   ensures ret0 == (m.int != nil || m.ext != nil)
+//@   pure
+//@ func (compressionMap).find [C03 C04]
+//@   ensures hit: ret1 ==> 0 <= ret0 && ret0 < 16384
+//@   pure
+//@ func (compressionMap).insert [C03 C04]
+//@   requires 0 <= pos && pos < 16384 && (m.int != nil || m.ext != nil)
+//@   pure
+//@ func isRootLabel [C03 C04]
+//@   requires 0 <= off && off <= end && (bs == nil ==> end <= len(s)) && (bs != nil ==> end <= len(bs))
+//@   ensures bs == nil ==> ret0 == (end - off == 1 && s[off] == '.')
+//@   ensures bs != nil ==> ret0 == (end - off == 1 && bs[off] == '.')
+//@   pure
+
+//@ func packDomainName [C03 C04]
+//@   requires 0 <= off
+//@   ensures empty: len(s) == 0 ==> err == nil && off1 == off
+//@   ensures nofq:  len(s) > 0 && !IsFqdnSpec(s) ==> err != nil
+//@   ensures fail:  err != nil ==> off1 == len(msg) || off1 == off
+//@   ensures acc:   !compress && err == nil && len(s) > 0 ==> ns63(s, 0, 0, false)
+//@   ensures rng:   err == nil && len(s) > 0 ==> off <= off1 && off1 <= len(msg)
+//@   ensures lim255: !compress && err == nil && len(s) > 0 ==> validname(s)
+//@   ensures conv:  len(s) > 0 && IsFqdnSpec(s) && ns63(s, 0, 0, false) && off + nswire(s, 0, 0, 0) + (isdot(s) ? 0 : 1) <= len(msg) ==> err == nil
+//@   assert at "ls -= 3" shift3: forall k in i+1..ls-3 :: bs[k] == s[k + compOff + 3]
+//@   assert at "ls--" shift1: forall k in i..ls-1 :: bs[k] == s[k + compOff + 1]
+//@   assert at "if isRootLabel(s, bs, 0, ls) {" exitw: pointer == 0 - 1 ==> off - old(off) == nswire(s, 0, 0, 0)
+//@   loop 1 invariant wire:  nswire(s, 0, 0, 0) == nswire(s, i + compOff, i - begin, off - old(off))
+//@   apply at "if off+1 > len(msg)" nswire_ge(s, i + compOff, i - begin, off - old(off))
+//@   apply at "if off+1+labelLen > len(msg)" nswire_ge(s, i + compOff, i - begin, off - old(off))
+//@   loop 1 invariant 0 <= i && i <= ls && 0 <= begin && begin <= i && 0 <= compOff && ls + compOff == len(s) && old(off) <= off && IsFqdnSpec(s)
+//@   loop 1 invariant bsnil: (bs == nil ==> compOff == 0) && (bs != nil ==> len(bs) == len(s) && compOff >= 1) && fresh(bs) && (compOff > 0 ==> i > 0)
+//@   loop 1 invariant tail:  bs != nil ==> (forall k in i..ls :: bs[k] == s[k + compOff])
+//@   loop 1 invariant cb:     0 <= compBegin && compBegin <= begin + compOff
+//@   loop 1 invariant lab:    i == begin ==> (wasDot || i == 0)
+//@   loop 1 invariant room:   begin > 0 ==> off <= len(msg)
+//@   loop 1 invariant unesc:  i < ls ==> !escd(s, i + compOff)
+//@   loop 1 invariant lastdot: bs != nil && i < ls ==> bs[ls-1] == '.'
+//@   loop 1 invariant fin:    ls >= 1 && (i == ls ==> begin == ls)
+//@   loop 1 invariant rest:  ns63(s, 0, 0, false) == ns63(s, i + compOff, i - begin, wasDot)
+//@   loop 1 invariant ptr:   pointer == 0 - 1
+//@   loop 1 decreases ls - i
+
+// Map value invariants (type-level): compression offsets are message offsets.  Checked at every map update in
+// the functions under contract, assumed at every successful lookup.  For the exported PackDomainName/PackRR the
+// caller's map is the caller's responsibility (documented precondition).
+//@ iface mapinv.mapLstringJint [C03 C04]
+//@   ensures 0 <= v && v < 16384
+//@ iface mapinv.mapLstringJuint16 [C03 C04]
+//@   ensures 0 <= v && v < 16384
+
+//@ func PackDomainName [C03 C04]
+//@   requires 0 <= off
+//@   ensures empty: len(s) == 0 ==> err == nil && off1 == off
+//@   ensures nofq:  len(s) > 0 && !IsFqdnSpec(s) ==> err != nil
+//@   ensures acc:   !compress && err == nil && len(s) > 0 ==> ns63(s, 0, 0, false)
+//@   ensures rng:   err == nil && len(s) > 0 ==> off <= off1 && off1 <= len(msg)
